@@ -36,7 +36,7 @@ struct LenpHarness : Harness {
     std::vector<std::string> props() const override { return {"C13"}; }
     std::vector<std::string> probes(const std::string &) const override {
         return {"varint_prefix_1", "varint_prefix_2", "varint_prefix_3plus", "buffer_with_offset_and_free_space", "chunk_list_with_empty_chunk", "chunk_list_active_nonzero",
-                "frame_split_inside_prefix", "destination_one_octet_too_small", "over_maximum_refused", "total_beyond_ssize_max_refused", "second_task_framed_during_a_sink_call", "second_task_decoded_during_a_source_call", "varint_through_header_wrapper", "source_lends_its_window", "prefix_declares_more_than_any_destination", "unmaterialised_length_accepted", "unmaterialised_length_through_buffer", "unmaterialised_length_through_buffer_n", "unmaterialised_length_through_chunks", "kind_maximum_accepted", "sink_error_mid_frame", "buffer_n_less_than_rest",
+                "frame_split_inside_prefix", "destination_one_octet_too_small", "over_maximum_refused", "total_beyond_ssize_max_refused", "second_task_framed_during_a_sink_call", "earlier_framing_job_failed_before_the_scenario", "second_task_decoded_during_a_source_call", "varint_through_header_wrapper", "source_lends_its_window", "prefix_declares_more_than_any_destination", "unmaterialised_length_accepted", "unmaterialised_length_through_buffer", "unmaterialised_length_through_buffer_n", "unmaterialised_length_through_chunks", "kind_maximum_accepted", "sink_error_mid_frame", "buffer_n_less_than_rest",
                 "n_beyond_unread_refused", "fragmented_decode", "append_behind_existing_content", "multi_frame_stream_fragmented", "source_interruption_during_decode"};
     }
     uint64_t runs(const std::string &, const Tier &t) const override { return t.thorough() ? 10000000 : 1200000; }
@@ -131,6 +131,7 @@ struct LenpHarness : Harness {
             ops.push(o);
         }
         p["ops"] = ops; if (r.chance(1, 3)) p["macro_init"] = 1;
+        if (r.chance(1, 6)) p["prelude"] = (long long)r.below(64);
         return p;
     }
 
@@ -150,6 +151,18 @@ struct LenpHarness : Harness {
 
     void exec(const Json &plan, Ctx &c) override {
         g_bind_with_macros = plan.geti("macro_init") != 0;
+        if (plan.has("prelude")) {   // an earlier framing job in this process failed: a stream that ended inside the prefix / inside the payload, a sink that failed behind the prefix
+            const int64_t a = plan.geti("prelude"); const int kk = (int)((a >> 2) % 6);
+            SimSource s0; SimSink k0; s0.c = &c; k0.c = &c; Source so; Sink si; s0.bind(&so); k0.bind(&si);
+            unsigned char dst[16]; unsigned char pay8[8] = {1, 2, 3, 4, 5, 6, 7, 8};
+            switch (a & 3) {
+            case 0: s0.data = ref_prefix(kk, 9); s0.data.resize(s0.data.size() - (s0.data.size() > 1 ? 1 : 0)); (void)flenp_memory_from_source((LengthPrefixKind)kk, &so, dst, sizeof dst); break;
+            case 1: s0.data = ref_prefix(kk, 9); s0.data.push_back(0x41); (void)flenp_memory_from_source((LengthPrefixKind)kk, &so, dst, sizeof dst); break;
+            case 2: s0.data = ref_prefix(kk, 9); s0.data.push_back(0x41); s0.data.push_back(0x42); (void)flenp_decode_source_to_sink((LengthPrefixKind)kk, &so, &si); break;
+            default: k0.err_pos = (int64_t)ref_prefix(kk, 8).size() + 3; k0.err_code = EIO; (void)flenp_memory_to_sink((LengthPrefixKind)kk, &si, pay8, 8); break;
+            }
+            COUNT("probe.earlier_framing_job_failed_before_the_scenario");
+        }
         const Json &ops = plan.get("ops");
         for (size_t oi = 0; oi < ops.size() && oi < 8; ++oi) {
             run_op(c, ops.at(oi), oi);
